@@ -152,3 +152,68 @@ def check_context_manager_pairing(prog: Program, res: Result, rule: str) -> None
             else:
                 res.ok(rule, site, what, "no exit (normal or exceptional) is reachable with the resource held")
 
+
+
+def check_cache_hit_rebinds(prog: Program, res: Result, rule: str) -> None:
+    """Every path of CachingLoaderMixin._check_cache* that returns the cached object first rebinds its global_data
+    from the caller's `globals` (must-pass-through on the CFG), so a hit never carries an earlier caller's globals."""
+    from sa.report import AnalysisError
+    from sa.util import is_self_attr
+
+    rel = "liquid2/builtin/loaders/mixins.py"
+    mixin = prog.mod(rel).classes.get("CachingLoaderMixin")
+    if mixin is None:
+        raise AnalysisError("CachingLoaderMixin vanished")
+    for fname in ("_check_cache", "_check_cache_async"):
+        f = mixin.methods.get(fname)
+        if f is None:
+            raise AnalysisError(f"CachingLoaderMixin.{fname} vanished")
+        cfg = CFG(f.node)
+        cached_names = {t.id for n in ast.walk(f.node) if isinstance(n, ast.Assign) and isinstance(n.value, ast.Subscript) and is_self_attr(n.value.value, "cache") for t in n.targets if isinstance(t, ast.Name)}
+        if len(cached_names) != 1:
+            res.fail(rule, file=rel, line=f.node.lineno, qualname=f"CachingLoaderMixin.{fname}", construct=f"cached-template variable not bound from self.cache[key]: {sorted(cached_names)}", message="the cache lookup is not a single `x = self.cache[key]`: the rebinding obligation cannot be established", what="lookup shape")
+            continue
+        cached = next(iter(cached_names))
+        if "globals" not in f.params():
+            raise AnalysisError(f"{fname}: no `globals` parameter")
+        hit_returns = [n for n in cfg.nodes if n.kind == "stmt" and isinstance(n.node, ast.Return) and isinstance(n.node.value, ast.Name) and n.node.value.id == cached]
+        res.floor(rule, f"hit returns in {fname}", len(hit_returns), 1)
+
+        def is_rebind(n: object) -> bool:
+            nd = getattr(n, "node", None)
+            if getattr(n, "kind", "") != "stmt" or not isinstance(nd, ast.Assign):
+                return False
+            for t in nd.targets:
+                if isinstance(t, ast.Attribute) and t.attr == "global_data" and isinstance(t.value, ast.Name) and t.value.id == cached:  # noqa: B023
+                    return "globals" in {x.id for x in ast.walk(nd.value) if isinstance(x, ast.Name)}
+            return False
+
+        for r in hit_returns:
+            site = f"{rel}:{r.line} CachingLoaderMixin.{fname}"
+            what = f"`return {cached}` preceded by `{cached}.global_data = …globals…` on every path"
+            if cfg.all_paths_pass(r, is_rebind):
+                res.ok(rule, site, what, "rebinding statement on every path to the hit return")
+            else:
+                res.fail(rule, file=rel, line=r.line, qualname=f"CachingLoaderMixin.{fname}", construct=f"return {cached} reachable without rebinding {cached}.global_data", message="a cache hit can be returned without rebinding the caller's globals: the previous caller's globals are served (e.g. when the new caller passes none)", what=what)
+
+
+def check_scope_stack_ownership(prog: Program, res: Result, rule: str) -> None:
+    """The render scope stack (context.scope) is pushed / popped only inside RenderContext.extend."""
+    from sa.srcmodel import root_name
+
+    ctx = prog.cls("liquid2.context.RenderContext")
+    # scope stack: pushed/popped only by RenderContext.extend
+    n_sp = 0
+    for mod in prog.modules.values():
+        for c in ast.walk(mod.tree):
+            if isinstance(c, ast.Call) and isinstance(c.func, ast.Attribute) and c.func.attr in ("push", "pop") and isinstance(c.func.value, ast.Attribute) and c.func.value.attr == "scope" and root_name(c.func.value) in ("self", "context", "ctx", "macro_context"):
+                fi = prog.enclosing_function(mod, c)
+                if root_name(c.func.value) == "self" and (fi is None or fi.cls is not ctx):
+                    continue
+                n_sp += 1
+                what = f"`{norm(c)}` inside RenderContext.extend"
+                if fi is not None and fi.cls is ctx and fi.name == "extend":
+                    res.ok(rule, f"{mod.relpath}:{c.lineno} {fi.qualname}", what, "paired in try/finally by extend() (C07.R1)")
+                else:
+                    res.fail(rule, file=mod.relpath, line=c.lineno, qualname=fi.qualname if fi else "", construct=c, message="the render scope stack is pushed/popped by hand outside RenderContext.extend: an early exit (break, error, abandoned generator) leaves the scope pushed and block-bound names leak", what=what)
+    res.floor(rule, "scope push/pop sites", n_sp, 2)
